@@ -369,6 +369,7 @@ func (q *seq) encode(c encCase) int {
 }
 
 var oracleCases int
+var seenSlack = map[string]bool{}
 
 func (q *seq) bump() int { oracleCases++; return oracleCases }
 
@@ -421,7 +422,9 @@ func (q *seq) stats(c encCase, f *pixFmt, im *refImage, writes [][]byte) {
 		if i == 0 {
 			cp, which = capF, "first"
 		}
-		r.Count(fmt.Sprintf("slack:%s:%s:%d", which, f.name, cp-bl))
+		key := fmt.Sprintf("slack:%s:%s:%d", which, f.name, cp-bl)
+		r.Count(key)
+		seenSlack[key] = true
 	}
 	// did a flush fall exactly on a row boundary / on the filter byte / inside a row?
 	rowLen := 1 + c.w*f.n
@@ -470,6 +473,68 @@ func mk(r *hlib.Rand, f pixFmt, w, h, extra int, tag string) encCase {
 
 func ceilDiv(a, b int) int { return (a + b - 1) / b }
 
+// simBlocks predicts the stored-block lengths from the flush policy alone (used only to aim
+// generators; never as an oracle).
+func simBlocks(n, w, h int) []int {
+	var out []int
+	cp, used := capF, 0
+	put := func(k int) {
+		if used+k > cp {
+			out = append(out, used)
+			cp, used = capL, 0
+		}
+		used += k
+	}
+	for y := 0; y < h; y++ {
+		put(1)
+		for x := 0; x < w; {
+			// as many whole pixels as fit, at least one put() call
+			fit := (cp - used) / n
+			if fit > w-x {
+				fit = w - x
+			}
+			if fit > 0 {
+				used += fit * n
+				x += fit
+			} else {
+				put(n)
+				x++
+			}
+		}
+	}
+	return append(out, used)
+}
+
+// findSlack searches a shape whose block number `which` (0 first, 1 second) is flushed with
+// exactly `slack` unused bytes.
+func findSlack(f pixFmt, which, slack int) (int, int, bool) {
+	target := capF
+	if which == 1 {
+		target += capL
+	}
+	for rows := 1; rows <= 3*f.n+3; rows++ {
+		w0 := (target/rows - 1) / f.n
+		for w := w0 - 3; w <= w0+3; w++ {
+			if w < 1 {
+				continue
+			}
+			for h := rows; h <= rows+2; h++ {
+				bl := simBlocks(f.n, w, h)
+				if len(bl) >= which+2 {
+					cp := capF
+					if which == 1 {
+						cp = capL
+					}
+					if cp-bl[which] == slack {
+						return w, h, true
+					}
+				}
+			}
+		}
+	}
+	return 0, 0, false
+}
+
 func generate(r *hlib.Run) []encCase {
 	rng := r.Rand
 	var cs []encCase
@@ -513,6 +578,18 @@ func generate(r *hlib.Run) []encCase {
 				delta := rng.Range(-R-1, R+1)
 				h := (T + delta) / R
 				add(mk(rng, f, w, h, 0, "B:rows-sweep"))
+			}
+		}
+	}
+	// B2. directed: for every format, for the first and the second block, every slack value
+	//     0..n-1 (bytes left unused because the next pixel does not fit), found by simulating
+	//     the flush policy on candidate shapes.
+	for _, f := range fmts {
+		for which := 0; which < 2; which++ {
+			for slack := 0; slack < f.n; slack++ {
+				if w, h, ok := findSlack(f, which, slack); ok {
+					add(mk(rng, f, w, h, 0, "B2:slack-directed"))
+				}
 			}
 		}
 	}
@@ -800,11 +877,19 @@ func main() {
 	}
 	crafted(r)
 
-	keys := []string{}
+	// coverage of the flush-slack residues (evidence of the input distribution)
+	missing := []string{}
 	for _, f := range fmts {
-		keys = append(keys, f.name)
+		for _, which := range []string{"first", "later"} {
+			for k := 0; k < f.n; k++ {
+				if !seenSlack[fmt.Sprintf("slack:%s:%s:%d", which, f.name, k)] {
+					missing = append(missing, fmt.Sprintf("%s:%s:%d", which, f.name, k))
+				}
+			}
+		}
 	}
-	sort.Strings(keys)
+	sort.Strings(missing)
+	r.Extra("slack_residues_not_hit", missing)
 	r.Finish("cases: single-row sweeps of 1+w*n over [cap-34, cap+14] for cap = capF + m*capL (capF = ejMax-eiFirst, capL = ejMax-eiLater), " +
 		"many-short-row images with h*(1+w*n) around the same capacities, 1xN/Nx1 extremes, stride > row bytes, small random images, " +
 		"arguments outside the property (tie only), grouped into sequences of 1-4 (+ repeats with a failing writer) on one Encoder; " +
